@@ -354,6 +354,11 @@ func (enc Encryptor) encryptZeroPkNoP(pk *PublicKey, ct Element[ring.Poly]) (err
 		enc.xeSampler.AtLevel(levelQ).ReadAndAdd(c1)
 	}
 
+	if ct.IsMontgomery {
+		ringQ.MForm(c0, c0)
+		ringQ.MForm(c1, c1)
+	}
+
 	return
 }
 
@@ -414,10 +419,15 @@ func (enc Encryptor) encryptZeroSkFromC1(sk *SecretKey, ct Element[ring.Poly], c
 	ringQ.MulCoeffsMontgomery(c1, sk.Value.Q, c0)
 	ringQ.Neg(c0, c0)
 
+	// c1 is uniform: when the metadata ask for the Montgomery domain it is read as a Montgomery
+	// representative, -c1*sk then is one too, and the error must be switched to that domain as well.
 	if ct.IsNTT {
 		e := enc.buffQP[0].Q
 		enc.xeSampler.AtLevel(levelQ).Read(e)
 		ringQ.NTT(e, e)
+		if ct.IsMontgomery {
+			ringQ.MForm(e, e)
+		}
 		ringQ.Add(c0, e, c0)
 	} else {
 		ringQ.INTT(c0, c0)
@@ -425,7 +435,14 @@ func (enc Encryptor) encryptZeroSkFromC1(sk *SecretKey, ct Element[ring.Poly], c
 			ringQ.INTT(c1, c1)
 		}
 
-		enc.xeSampler.AtLevel(levelQ).ReadAndAdd(c0)
+		if ct.IsMontgomery {
+			e := enc.buffQP[0].Q
+			enc.xeSampler.AtLevel(levelQ).Read(e)
+			ringQ.MForm(e, e)
+			ringQ.Add(c0, e, c0)
+		} else {
+			enc.xeSampler.AtLevel(levelQ).ReadAndAdd(c0)
+		}
 	}
 
 	return
